@@ -37,9 +37,11 @@ theorem guards_present : Cfg.current = Cfg.all := by decide +kernel
 /-! ### key generation -/
 
 /-- **pdkg.Loop session layer**: for every sequence of peer messages (public keys, deals, responses
-with or without sub-message, any indices, any session ids) and registrations (any expected count,
-also 0 and negative), `handlePeerMsg` / `handleRequest` never use the zero-value request (nil
-context), never close a reply channel twice, and the loop stays alive. -/
+with or without sub-message, any indices, any session ids), registrations (any expected count,
+also 0 and negative) and expiry sweeps (8d5de85: any set of session contexts done, at any point),
+`handlePeerMsg` / `handleRequest` / the sweep never use the zero-value request (nil context), never
+close a reply channel twice — a registration in the map always has an open reply channel, distinct
+from every other one (`SessInv`) — and the loop stays alive. -/
 theorem session_layer_total (evs : List SessEv) :
     (sessRun Cfg.current {} evs).1.alive = true ∧ ∀ o ∈ (sessRun Cfg.current {} evs).2, o.isPanic = false := by
   rw [guards_present]
@@ -178,6 +180,8 @@ of the unrepaired code on a concrete message (these are the inputs of corpus/C12
 
 example : (sessRun Cfg.all {} [.req "a" 2, .msg "a" (.pk 1), .msg "a" (.pk 1), .msg "a" (.pk 2)]).2
     = [.ok "reg 0", .ok "buf 1", .ok "dup", .ok "fire 2"] := by decide
+example : (sessRun Cfg.all {} [.req "a" 2, .msg "a" (.pk 1), .expire ["a", "b", "a"], .expire ["a"], .msg "a" (.pk 2), .req "a" 1, .msg "a" (.pk 3), .expire ["a"]]).2
+    = [.ok "reg 0", .ok "buf 1", .ok "expired 1", .ok "expired 0", .ok "buf 1", .ok "fire 1", .ok "buf 1", .ok "expired 0"] := by decide
 example : genDkg Cfg.all 3 [⟨0, some .own⟩, ⟨1, some (.peer 1)⟩, ⟨2, some .identity⟩] = .ok "" := by decide
 example : genDkg Cfg.all 3 [⟨0, some .own⟩, ⟨7, some (.peer 1)⟩, ⟨2, none⟩] = .err "badpk" := by decide
 example : (genDkg { Cfg.all with gdkgGuard := false } 3 [⟨0, some .own⟩, ⟨7, some (.peer 1)⟩, ⟨2, some (.peer 2)⟩]).isPanic = true := by decide
